@@ -322,6 +322,7 @@ fn mixed_run(ctx: &Ctx, tag: &str, n: i64, salt: u64, pool: Option<Vec<i64>>) ->
       s.spawn(move || {
         p.into_iter().map(|(fam, a, w)| {
           let c = fresh_answer(fam, &a);
+          tick();
           Ev::new("q").i("s", 1).i("fam", fam).a("a", &a).a("w", &w).a("c", &c).done()
         }).collect::<Vec<String>>()
       })
